@@ -51,7 +51,7 @@ def extractFieldContent (input tag : Text) : Option (Text × Nat) :=
     let remaining := input.drop (fs + (marker tag).length)
     let (rawLen, hasNl) := contentEnd remaining
     let raw := remaining.take rawLen
-    let content := trimEndChar '\r' (trimEndChar '\n' raw)
+    let content := replaceCrLf (trimEndChar '\r' (trimEndChar '\n' raw))
     some (content, fs + (marker tag).length + rawLen + (if hasNl then 1 else 0))
 
 end SwiftMT
